@@ -59,8 +59,11 @@ func GetAsString(name string, fallback string) StringOption {
 
 	return func() string {
 		if !valid.IsSet() {
+			verifEvent("getter:stale", name)
 			valid = getValidityFlag()
+			verifEvent("getter:flag", name, valid)
 			option, valueCache = getValueCache(name, option, OptTypeString)
+			verifEvent("getter:value", name)
 			if valueCache != nil {
 				value = valueCache.stringVal
 			} else {
@@ -82,8 +85,11 @@ func GetAsStringArray(name string, fallback []string) StringArrayOption {
 
 	return func() []string {
 		if !valid.IsSet() {
+			verifEvent("getter:stale", name)
 			valid = getValidityFlag()
+			verifEvent("getter:flag", name, valid)
 			option, valueCache = getValueCache(name, option, OptTypeStringArray)
+			verifEvent("getter:value", name)
 			if valueCache != nil {
 				value = valueCache.stringArrayVal
 			} else {
@@ -105,8 +111,11 @@ func GetAsInt(name string, fallback int64) IntOption {
 
 	return func() int64 {
 		if !valid.IsSet() {
+			verifEvent("getter:stale", name)
 			valid = getValidityFlag()
+			verifEvent("getter:flag", name, valid)
 			option, valueCache = getValueCache(name, option, OptTypeInt)
+			verifEvent("getter:value", name)
 			if valueCache != nil {
 				value = valueCache.intVal
 			} else {
@@ -128,8 +137,11 @@ func GetAsBool(name string, fallback bool) BoolOption {
 
 	return func() bool {
 		if !valid.IsSet() {
+			verifEvent("getter:stale", name)
 			valid = getValidityFlag()
+			verifEvent("getter:flag", name, valid)
 			option, valueCache = getValueCache(name, option, OptTypeBool)
+			verifEvent("getter:value", name)
 			if valueCache != nil {
 				value = valueCache.boolVal
 			} else {
